@@ -30,7 +30,7 @@ void merge_union_cb(void *clos, const uint8_t *key, size_t len_key, const uint8_
 int dupsort_bytes_cb(void *, const uint8_t *, size_t, const uint8_t *v0, size_t l0, const uint8_t *v1, size_t l1);
 
 struct USource {
-	mfmt::Entries ents;	// sorted, unique keys
+	mfmt::Entries ents;	// sorted by key; a key may repeat (copies in value order)
 	long live_iters = 0;
 	uint64_t next_calls = 0;
 };
@@ -42,6 +42,7 @@ struct MergeSrc {
 	int comp = 0;
 	size_t rint = 16;
 	TableModel ents = new_model();
+	std::vector<std::pair<Bytes, Bytes>> extra;	// user-defined sources: further copies of keys in `ents`
 	USource us;
 	std::string path;
 	mtbl_reader *reader = nullptr;
